@@ -9,7 +9,7 @@ open LolHtml LolHtml.Model
 variable {κ : Type}
 
 section
-variable {env : Env κ} {inpS inpW : Bytes} {δ : Nat} {K : Nat → κ → κ → Prop}
+variable {env : Env κ} {inpS inpW : Bytes} {δ : Nat} {K : Nat → κ → κ → Prop} {Loc : κ → Nat → Nat → TextType → Prop}
 
 /-- what `break_on_end_of_input` leaves of the split machine, against the whole machine `mw0` that has
 not consumed anything in this step -/
@@ -113,7 +113,11 @@ theorem break_split {d : Nat} {ab : Ab} {sm : SeqMode} {ms mw mw0 : M κ} (h : M
                       lexemeStart := 0 } := by
           simp only [adjustForNextInput, hrs]
         simp only [hadj, hcons]
-        exact (hl'.weaken (ab' := ab.boundary) (by rw [Ab.le_iff]; simp [Ab.boundary])).alignS rfl
+        refine (hl'.weaken (ab' := ab.boundary) (by rw [Ab.le_iff]; simp [Ab.boundary])).alignS rfl (fun g n hn => ?_)
+        have hnp1 : ms.c.nextPos - 1 - ls.lexemeStart + ls.lexemeStart = ms.c.nextPos - 1 := by
+          rw [hcons] at hu2; omega
+        rw [hnp1]
+        exact hl'.ntp g hP n hn
     · rw [hw0]
       cases hrs : ms.r with
       | lexer ls => rw [hrs, hrw] at hr; exact hr.elim
@@ -388,7 +392,12 @@ theorem break_both (F : Frame inpS inpW δ) (hcl : Closed inpS inpW δ) {d : Nat
                       lexemeStart := 0 } := by
           simp only [adjustForNextInput, hrw]
         rw [hadj, hadjw]
-        exact ((hl'.weaken (ab' := ab.boundary) (by rw [Ab.le_iff]; simp [Ab.boundary])).alignS rfl).alignW rfl
+        have hcons' : consumedByteCount inpS ms = ls.lexemeStart := by simp only [consumedByteCount, hrs]
+        refine ((hl'.weaken (ab' := ab.boundary) (by rw [Ab.le_iff]; simp [Ab.boundary])).alignS rfl (fun g n hn => ?_)).alignW rfl
+        have hnp1 : ms.c.nextPos - 1 - consumedByteCount inpS ms + ls.lexemeStart = ms.c.nextPos - 1 := by
+          rw [hcons'] at hu2 ⊢; omega
+        rw [hnp1]
+        exact hl'.ntp g hP n hn
     | scanner ss =>
       cases hrw : mw.r with
       | lexer lw => rw [hrs, hrw] at hr; exact hr.elim
@@ -480,11 +489,13 @@ theorem LexRel.emitTextSplitOnly {d np : Nat} {ab ab' : Ab} {ls lw : LexRegs} (h
   obtain ⟨n1, n2, n3, n4, n5, n6⟩ := hn
   split
   · refine ⟨by show np - 1 ≤ np; omega, by show _ = np - 1 + δ; omega, fun _ => by show np - 1 + 1 ≤ np; omega, h.fd,
-      (fun g => by simp [n1] at g), ?_, ?_, ?_, (fun g => by simp [n6] at g)⟩
+      (fun g => by simp [n1] at g), ?_, ?_, ?_, (fun g => by simp [n6] at g), (fun g => by simp [n5] at g),
+      (fun g => by simp [n5] at g)⟩
     · rw [n2, n3]; exact OptRel.mono (fun _ _ hr => hr.stale) h.tag
     · rw [n4]; exact OptRel.mono (fun _ _ hr => hr.stale) h.attr
     · rw [n5]; exact OptRel.mono (fun _ _ hr => hr.stale) h.nt
-  · refine ⟨h.ls_le, by omega, fun _ => hp, h.fd, (fun g => by simp [n1] at g), ?_, ?_, ?_, (fun g => by simp [n6] at g)⟩
+  · refine ⟨h.ls_le, by omega, fun _ => hp, h.fd, (fun g => by simp [n1] at g), ?_, ?_, ?_, (fun g => by simp [n6] at g),
+      (fun g => by simp [n5] at g), (fun g => by simp [n5] at g)⟩
     · rw [n2, n3]; exact OptRel.mono (fun _ _ hr => hr.stale) h.tag
     · rw [n4]; exact OptRel.mono (fun _ _ hr => hr.stale) h.attr
     · rw [n5]; exact OptRel.mono (fun _ _ hr => hr.stale) h.nt
